@@ -10,7 +10,7 @@ from vlib.runner import Batch, run_harness
 ID = "C06"
 LEAN_PROPS = [f"FcpptProofs.Props.C06.Trunc_{t}" for t in ("u8", "u16", "u32", "u64", "i8", "i16", "i32", "i64")] + [
     "FcpptProofs.Props.C06.Basic", "FcpptProofs.Props.C06.Arith", "FcpptProofs.Props.C06.Log2", "FcpptProofs.Props.C06.Pow", "FcpptProofs.Props.C06.NextPow",
-    "FcpptProofs.Props.C06.Casts", "FcpptProofs.Props.C06.Div2", "FcpptProofs.Props.C06.CeilNarrow", "FcpptProofs.Props.C06.Interval", "FcpptProofs.Props.C06.Masks", "FcpptProofs.Props.C06.Enum2", "FcpptProofs.Props.C06.Relations"]
+    "FcpptProofs.Props.C06.Casts", "FcpptProofs.Props.C06.Div2", "FcpptProofs.Props.C06.CeilNarrow", "FcpptProofs.Props.C06.Interval", "FcpptProofs.Props.C06.Masks", "FcpptProofs.Props.C06.Enum2", "FcpptProofs.Props.C06.Relations", "FcpptProofs.Props.C06.Bool"]
 LEAN_EXTRA = ["FcpptModel.Gen.Scalar"]
 HARNESS = {"src": "harness/c06.cpp"}
 TIE = ("TRANSLATION: lean/FcpptModel/Gen/Scalar.lean is regenerated from /repo's headers on every run by tools/cxx2lean.py "
@@ -163,10 +163,9 @@ def small(t, rng=None, n=0):
     return sorted(v for v in vs if lo(t) <= v <= hi(t))
 
 
-# truncation_check<bool>(S) for an 8-bit S answers some(true) for every value >= 2 (sizeof(bool) == sizeof(S) is taken for
-# "every value fits").  Reported to the coordinator as a defect candidate; until it is decided (fix: commit or known finding)
-# these ops — implemented in harness and driver — are not generated.  `VERIF_C06_BOOL8=1 ./check.py C06` shows the violation.
-BOOL_DEST_FROM_8BIT = os.environ.get("VERIF_C06_BOOL8") == "1"
+# truncation_check<bool>(S) for an 8-bit S answered some(true) for every value >= 2 (sizeof(bool) == sizeof(S) was taken for
+# "every value fits"): found by these ops, repaired by fix 14450a3 (overloads selected by numeric_limits<>::digits).
+BOOL_DEST_FROM_8BIT = True
 CANON = {"ll": "i64", "ull": "u64", "ch": "i8", "wc": "i32", "c8": "u8", "c16": "u16", "c32": "u32"}
 NAMED_PAIRS = [("ll", "i32"), ("i32", "ll"), ("ll", "u64"), ("ull", "i64"), ("u64", "ull"), ("i64", "ll"), ("ull", "ll"), ("u8", "ll"),
                ("ch", "i32"), ("ch", "u8"), ("u8", "ch"), ("i8", "ch"), ("wc", "i64"), ("wc", "u32"), ("u16", "wc"), ("c8", "i16"),
@@ -201,7 +200,7 @@ def batches(rng, tier):
         ops.append(f"range1 {f} {lo(cs)} {hi(cs)}" if BITS[cs] <= 16 else f"list1 {f} {csv(lattice(cs))}")
     for st in ALL:
         if BITS[st] == 8 and not BOOL_DEST_FROM_8BIT:
-            continue        # DEFECT CANDIDATE (notes/C06.md): truncation_check<bool>(uint8_t{2}) = some(true); reported, not in the default batches
+            continue
         ops.append(f"range1 truncation_check_b_{st} {lo(st)} {hi(st)}" if BITS[st] <= 16 else f"list1 truncation_check_b_{st} {csv(lattice(st))}")
     for d in ("u8", "u64", "i8", "i32", "i64"):
         ops.append(f"range1 truncation_check_{d}_b 0 1")
@@ -428,6 +427,8 @@ def interval_spec(t, a1, b1, a2, b2):
 def spec(f, t, args):
     """Exact mathematical result under the property's guard; None = outside the guard (anything goes)."""
     inr = lambda ty, v: lo(ty) <= v <= hi(ty)
+    if f == "truncation_check_bool":
+        return ("some %d" % args[0]) if 0 <= args[0] <= 1 else "none"
     if f in ("size", "to_signed", "to_unsigned"):
         return str(wrap(t[0], args[0]))
     if f in ("safe_numeric", "promote_int"):
@@ -492,7 +493,9 @@ def spec(f, t, args):
 def parse_name(name):
     import re
     m = re.fullmatch(r"truncation_check_([a-z0-9]+)_([a-z0-9]+)", name)
-    if m and "b" in (m.group(1), m.group(2)):
+    if m and m.group(1) == "b":
+        return "truncation_check_bool", m.group(2)
+    if m and m.group(2) == "b":
         return "none", None
     if m and (m.group(1) in CANON or m.group(2) in CANON):
         return "truncation_check", (CANON.get(m.group(1), m.group(1)), CANON.get(m.group(2), m.group(2)))
@@ -542,6 +545,8 @@ def search(binp, rng, tier):
         vs = [lo(t), lo(t) + 1, -1, 0, 1, 5, hi(t) - 1, hi(t)]
         vs = [v for v in vs if lo(t) <= v <= hi(t)]
         ops += [f"call clamp_{t} {a} {b} {c}" for a in vs for b in vs for c in vs]
+    for st in ALL:
+        ops += [f"call truncation_check_b_{st} {v}" for v in (range(lo(st), hi(st) + 1) if BITS[st] == 8 else lattice(st))]
     # second generation
     pick = lambda t: lattice(t) if BITS[t] > 8 else list(range(lo(t), hi(t) + 1))
     few = lambda t: [v for v in pick(t) if abs(v) < 40 or v in (lo(t), hi(t), lo(t) + 1, hi(t) - 1) or (abs(v) & (abs(v) - 1)) == 0 or ((abs(v) + 1) & abs(v)) == 0][:90]
